@@ -23,6 +23,18 @@ type Target struct {
 	File  string   // path relative to the module root
 	Funcs []string // required functions (missing => error listed in Missing)
 	All   bool     // instrument every function in the file
+	// Patches are literal text replacements applied before the AST pass
+	// (each Old must occur exactly Count times, else it is reported missing).
+	Patches []Patch
+	// NoYield: apply only the patches, insert no yield points.
+	NoYield bool
+}
+
+type Patch struct {
+	Name  string
+	Old   string
+	New   string
+	Count int
 }
 
 type Report struct {
@@ -241,7 +253,22 @@ func Tree(root, outDir string, targets []Target) (map[string]string, []Report, e
 			reps = append(reps, Report{File: tg.File, Missing: append([]string{"<file>"}, tg.Funcs...)})
 			continue
 		}
-		out, rep, err := File(p, src, tg)
+		var pmiss []string
+		for _, pt := range tg.Patches {
+			if strings.Count(string(src), pt.Old) != pt.Count {
+				pmiss = append(pmiss, "patch:"+pt.Name)
+				continue
+			}
+			src = []byte(strings.ReplaceAll(string(src), pt.Old, pt.New))
+		}
+		var out []byte
+		var rep Report
+		if tg.NoYield {
+			out, rep = src, Report{File: tg.File}
+		} else {
+			out, rep, err = File(p, src, tg)
+		}
+		rep.Missing = append(rep.Missing, pmiss...)
 		if err != nil {
 			return nil, reps, fmt.Errorf("%s: %v", tg.File, err)
 		}
